@@ -26,15 +26,26 @@ pub fn run(id: &str, o: &Oracle, tier: &str, seed: u64, rep: &Report) -> bool {
             if matches!(id, "C01" | "C06") {
                 history::five_pairs_history(o, seed, rep, thorough);
             }
+            if id == "C06" {
+                history::conversion_neighbours(o, rep);
+            }
             if matches!(id, "C02" | "C03" | "C09" | "C06" | "C08") {
                 history::big_families_history(o, seed, rep, rounds / 8);
             }
+            history::repeat_then_neighbour_ranking(o, seed, rep, thorough);
         }
         "C15" | "C16" => {
             history::words_history(o, seed, rep, rounds);
             history::peel_interleaving(o, seed, rep, rounds);
+            history::repeat_then_neighbour_misc(o, id, seed, rep);
         }
-        "C10" | "C14" | "C17" | "C20" => history::words_history(o, seed, rep, rounds),
+        "C07" | "C10" | "C14" | "C17" | "C18" | "C20" => {
+            history::words_history(o, seed, rep, rounds);
+            history::repeat_then_neighbour_misc(o, id, seed, rep);
+            if id == "C07" {
+                history::conversion_neighbours(o, rep);
+            }
+        }
         _ => {}
     }
     match id {
